@@ -72,12 +72,15 @@ Definition layout_ok (p : package) : Prop :=
   NoDup (map file (scanned_modules p)) /\
   forall m, In m (scanned_modules p) -> NoDup (map cname (classes m)).
 
-(* No MODE_NAME is one of the artificial keys "<class>_<file>" and none is the
-   chooser's own "None" entry. *)
+(* The artificial keys "<class>_<file>" under which the FMS branch keeps
+   duplicates are pairwise different (true when files are absolute paths and
+   member names are identifiers) and no MODE_NAME equals one of them. *)
 Definition no_key_clash (p : package) : Prop :=
+  NoDup (map renamed (needed p)) /\
   forall i j, In i (needed p) -> In j (needed p) -> name_of i <> renamed j.
-Definition no_mode_called_None (p : package) : Prop :=
-  forall i, In i (needed p) -> name_of i <> "None" /\ renamed i <> "None".
+
+(* a name the chooser can hand back: not its own "None" entry, not empty *)
+Definition choosable (k : string) : Prop := k <> "None" /\ k <> "".
 
 (* ------------------------------------------------------------------ *)
 (* Well-formed call sequences (DESIGN 10):
